@@ -17,6 +17,18 @@ CHECKS = {
          "gcc 12 / clang 14 as installed define 'valid C'"),
  "C12": ("exploration", "one sanitized binary holding the default-option build and builds under rows of representation options; strict equality of per-byte traces (codes, output contents and lengths, hook sequence)", "3 C12", "differential runtime monitoring of emitted C, default-option build as oracle",
          "heap blocks are zero-filled in these runs so that reads beyond the written length are deterministic"),
+ "C07": ("exploration", "emitted C of `/R/; end;` for enumerated small and random larger regexes (text and binary form): acceptance observed at every prefix through end() on a state copy, feed codes and FAIL pointer, and forced one-byte sweeps over all 256 byte values from several automaton states, compared with a Brzozowski-derivative engine", "3 C07", "reference-model monitor (regex derivatives) over recorded executions of sanitized emitted C",
+         "vf/rx.py is the language definition (documented dialect)"),
+ "C13": ("exploration", "generated programs and their macro-ized twins (slices extracted into nested macros with parameters of every kind) compiled by the real compiler and linked into one sanitized binary: verdicts equal, per-byte traces identical; mutated calls (extra/missing/wrong-kind/undefined arguments) must be diagnosed", "3 C13", "differential runtime monitoring of emitted C, inlined twin as oracle, plus exception monitor on argument errors",
+         "macro-ization is the harness's own AST transformation"),
+ "C14": ("exploration", "random well-typed expression trees (all operators and atoms, minimal parentheses) placed in assignment / bool assignment / character append / if contexts; variable values written into the state struct, one byte fed, stored results read back and compared with a big-integer evaluator with explicit C typing (UB classified and skipped)", "3 C14", "reference-model monitor (C arithmetic evaluator) over executions of sanitized emitted C",
+         "LP64 gcc/clang typing; conversion to signed targets wraps"),
+ "C15": ("exploration", "8-byte literals tiling all 256 byte values in every match spelling, swept with all 256 next bytes at every position and run on single-byte mutations; assigned / default strings, character constants and integer literals read back from the state struct; set-string contract on the real code generator", "3 C15", "reference-model monitor (literal decoder + derivatives) over executions of sanitized emitted C, icontract contract",
+         "vf/lit.py + documented escape list define what a spelling denotes"),
+ "C16": ("exploration", "wait programs (0-2 enclosing try blocks, literal / case-insensitive / regex / concatenated patterns incl. self-overlapping ones) compared as languages with an independently built restart automaton at every prefix (feed code, FAIL pointer, end() on a copy) and by 256-byte sweeps", "3 C16", "reference-model monitor (restart automaton) over recorded executions of sanitized emitted C",
+         "restart rule as documented"),
+ "C20": ("exploration", "each program compiled alone in a fresh process, in fresh processes under random PYTHONHASHSEED with an allocation preamble, and after 1-30 other compilations in one process; verdicts must agree and the emitted parsers, linked into one sanitized binary, must give identical per-byte traces", "3 C20", "differential runtime monitoring across perturbed compiler executions (hash seed, heap layout, process history)",
+         "fresh-process hash-seed-0 compilation is the reference; textual differences are not flagged"),
  "C18": ("exploration", "the real compiler pipeline run in-process on generated sources with semantic chaos spliced in; exception-class monitor (anything but the diagnosed classes, or an unrenderable message, is internal) and a sys.monitoring PY_START step budget as logical clock", "3 C18", "exception and step monitors around real compilations",
          "diagnosed = NMFUError subclasses, LarkError, option RuntimeError; hang = step budget exceeded twice"),
  "C19": ("exploration", "icontract post-condition on the real ProgramData.load_commandline_flags (implications, exclusions, override rules read from flag metadata) over all 3^n assignments of the related flags x levels (thorough) plus cross-call monitors for level monotonicity, permutation independence and malformed options", "3 C19", "icontract runtime contract on the real function + cross-call monitors",
@@ -28,7 +40,7 @@ man = {
  "setup_cmd": "/venv/bin/pip install -q --no-index --find-links /opt/veriftools/wheels --target /verif/.deps icontract jsonschema",
  "hooks": {"guard": "NMFU_VERIF", "enable": "no source hooks: monitors are attached from the harness (icontract wrappers, sys.monitoring, recording C driver)", "baseline_off_cmd": "cd /repo && /venv/bin/python -m pytest -q -p no:cacheprovider --timeout=900", "source_commits": [], "add_only": True},
  "engines": [
-   {"name": "cdrv", "path": "vf/cdrv.py + vf/c/driver.c", "serves_properties": ["C02","C03","C05","C12"], "kind_free_text": "recording C driver: sanitized batch builds, event log, invariants, step meter"},
+   {"name": "cdrv", "path": "vf/cdrv.py + vf/c/driver.c", "serves_properties": ["C02","C03","C05","C07","C12","C13","C14","C15","C16","C20"], "kind_free_text": "recording C driver: sanitized batch builds, event log, invariants, step meter"},
    {"name": "nm", "path": "vf/nm.py", "serves_properties": sorted(CHECKS), "kind_free_text": "in-process driver of the real compiler with exception classification and PY_START step meter"},
    {"name": "gen", "path": "vf/gen.py + vf/rx.py", "serves_properties": ["C02","C03","C05","C11","C12","C18"], "kind_free_text": "seeded program generator over the documented statement language"},
  ],
